@@ -82,4 +82,5 @@ package internal
 //@   modifies wrOut, wireFmt
 //@ func ReadDelimitedMessage
 //@   trusted
-//@   modifies rdPos, onlyfresh(msg)
+//@   //# the runner reads the two compat response types; everything else unmarshalling creates is fresh
+//@   modifies rdPos, conformancev1.ClientCompatResponse.*, conformancev1.ServerCompatResponse.*
